@@ -135,6 +135,45 @@ def walk_flow(rng, nodes, edges, weights=(1, 2, 3)):
     return f, walks, ws
 
 
+def node_instance(rng, cls, small=True):
+    """a random mostly-valid NODE-weighted instance (flow_attr_origin / cover_type = 'node'): node values are the
+    sums of the planted route weights through the node (perturbed for the error models); additional starts/ends
+    where the class takes them"""
+    base = instance(rng, cls, small=small, features=False)
+    nodes, edges = base["nodes"], [tuple(e) for e in base["edges"]]
+    wint = base["weight_type"] == "int"
+    inst = {"cls": cls, "nodes": nodes, "edges": base["edges"], "origin": "node", "weight_type": base["weight_type"],
+            "constraints": [], "coverage": "1", "ignore": [], "starts": [], "ends": [], "options": {}}
+    if cls not in COVER:
+        # node value = total edge flow entering (or leaving, for sources) the node in the planted edge flow
+        f = {(u, v): frac(q) for u, v, q in base["flow"]}
+        val = {}
+        for v in nodes:
+            inn = sum(f[e] for e in edges if e[1] == v)
+            out = sum(f[e] for e in edges if e[0] == v)
+            val[v] = max(inn, out)
+        if cls in ERROR and rng.random() < 0.6:
+            for v in nodes:
+                if rng.random() < 0.3:
+                    val[v] = max(0, val[v] + rng.choice([-1, 1, 2]))
+        inst["node_flow"] = [[v, qstr(val[v])] for v in nodes if not (cls in ERROR and rng.random() < 0.1)]
+        if not inst["node_flow"]:
+            inst["node_flow"] = [[nodes[0], "1"]]
+    if "k" in base:
+        inst["k"] = base["k"]
+    if cls not in FLOW_DECOMP and rng.random() < 0.5:
+        # an additional end in the middle of a route / an additional start
+        inner = [v for v in nodes if any(e[0] == v for e in edges) and any(e[1] == v for e in edges)]
+        if inner:
+            if rng.random() < 0.7:
+                inst["ends"] = [rng.choice(inner)]
+            if rng.random() < 0.5:
+                inst["starts"] = [rng.choice(inner)]
+    if cls in ERROR | COVER and rng.random() < 0.2:
+        inst["ignore"] = [rng.choice(nodes)]
+    return inst
+
+
 def instance(rng, cls, small=True, features=True):
     """a random mostly-valid instance for class `cls` (edge mode)"""
     cyc = is_cyc(cls)
